@@ -639,6 +639,10 @@ func hasBlockingCall(e ast.Expr) bool {
 					return true
 				}
 			}
+			switch c.Fun.(type) {
+			case *ast.ArrayType, *ast.MapType, *ast.ChanType, *ast.InterfaceType, *ast.StructType:
+				return true // a conversion to a type literal ([]byte(nil)): not a call at all
+			}
 			found = true
 		}
 		if u, ok := n.(*ast.UnaryExpr); ok && u.Op == token.ARROW {
